@@ -127,6 +127,12 @@ func c14gen(r *rand.Rand) *c14case {
 		func() string { return n + ".-" + c14ts(r)[1:] },
 		func() string { return strings.ToUpper(n) + "." + c14ts(r) },
 		func() string { return n + ".old." + c14ts(r) + ".1" },
+		// 14 BYTES after the dot that are decimal digits to Unicode but not the ASCII digits a rotation timestamp consists of
+		func() string { return n + "." + strings.Repeat("\u0663", 7) },            // seven Arabic-Indic digits (2 bytes each)
+		func() string { return n + "." + c14ts(r)[:12] + "\u0661" },               // 12 ASCII digits + one 2-byte digit
+		func() string { return n + "." + c14ts(r)[:4] + "\uff11" + c14ts(r)[:7] }, // 11 ASCII digits + one full-width digit (3 bytes)
+		func() string { return n + "." + c14ts(r)[:13] + "\u00b2" },               // 13 digits and a superscript two: 15 bytes, 14 characters
+		func() string { return n + "." + strings.Repeat("\u0967", 14) },           // 14 Devanagari digits: 14 characters, 42 bytes
 		func() string { return "unrelated.txt" },
 		func() string { return "README" },
 		func() string { return c14ts(r) },
@@ -676,7 +682,7 @@ func c14Worker(w *W) {
 func init() {
 	register(&Prop{
 		ID: "C14", Level: "exploration", MinDistinct: 20, Worker: c14Worker,
-		Rule: "directory states generated per case: 3-10 own rotated files '<name>.<14 digits>', 2-5 sibling '<name>.wf.<ts>' files, 4-11 foreign prefix-sharing or unrelated files from 17 shapes (name.audit.<ts>, name.bak, name.1.gz, 13/15-digit suffixes, name.<ts>.gz, 'name.', 'name', namex.<ts>, upper-case, letters/sign inside the digits, ...), sub-directories incl. one named exactly like an own file; " +
+		Rule: "directory states generated per case: 3-10 own rotated files '<name>.<14 digits>', 2-5 sibling '<name>.wf.<ts>' files, 4-11 foreign prefix-sharing or unrelated files from 26 shapes (non-ASCII decimal digits making up 14 bytes or 14 characters after the dot, name.audit.<ts>, name.bak, name.1.gz, 13/15-digit suffixes, name.<ts>.gz, 'name.', 'name', namex.<ts>, upper-case, letters/sign inside the digits, ...), sub-directories incl. one named exactly like an own file; " +
 			"modification times set to T0-age with ages -400 years .. -1 h (future), 0, maxAge∓11 min, ∓1 h, far expired, uniformly young; names in {app.log, svc, a.b.c, x-1_y, gw-2006.n1, Jan_02.15, app[1].log, a*b, q?.log}; log directories named c<i>, c<i>[z], c<i>?, c<i>*, c<i>\\z, each of the odd ones next to another program's directory (c<i>z, c<i>q, c<i>-more) holding old files named like our rotated ones, which must survive; in every fourth case the directory is moved away during one scan and restored before the judged scan; 1-3 own files whose name carries a recent or future local time while the file itself is old (and vice versa); workers run in six time zones (TZ) and in six synthetic zones whose UTC offset jumps by one hour 5, 30 or 200 hours ago (forwards or backwards); maxAge over 1..720 h with emphasis on 1-3 and 590-720; optionally a sibling '<name>.wf' appender cleaning the same directory. The appender is started (current file exists) and the scan runs through the guarded synchronous entry; a second worker kind lets a real 1 s rotation trigger the asynchronous scan and polls the directory. " +
 			"Oracle: survivors = everything except regular files matching ^<name>\\.\\d{14}$ older than maxAge hours (no file lies within 10 min of the cut-off). In every third case the same appender scans a second time after half of the surviving own files were touched (modification time = now) and maxAge was lowered to 1 h. Non-trivial/distinct = distinct (trigger, name, maxAge band, sibling, something deleted) classes that matched.",
 		Assumptions: []string{"files within 10 minutes of the cut-off are never generated; a case taking longer than that is inconclusive", "modification times are set with os.Chtimes"},
